@@ -318,7 +318,7 @@ func c01Decoded(spec *gen.MsgSpec, wire []byte, vs []cose.Verifier) error {
 func init() { register("c01", checkC01) }
 
 func c01Opts() gen.MsgOpts {
-	return gen.MsgOpts{MaxSigners: 6, Csigs: true, Hdr: constructedHdrOpts(), HugeLens: true}
+	return gen.MsgOpts{MaxSigners: 6, Csigs: true, Hdr: constructedHdrOpts(), HugeLens: true, Inject: true}
 }
 
 func TestC01_Random(t *testing.T) {
